@@ -409,7 +409,7 @@ func vGenCase(st *vStores, r *vrng, ci int, mode string, nops int) []vStep {
 		return uint64(p.State.RemainingAmt), true
 	}
 	pickID := func(h int) uint64 {
-		if mode != "disc" {
+		if mode == "wild" {
 			return uint64(r.intn(5))
 		}
 		if len(ids[h]) > 0 && r.intn(8) != 0 {
@@ -527,7 +527,7 @@ func vGenCase(st *vStores, r *vrng, ci int, mode string, nops int) []vStep {
 				a.HasMPP = true
 				a.BTotal = v
 			}
-			if mode == "disc" {
+			if mode != "wild" {
 				a.ID = fresh
 				fresh++
 			} else {
